@@ -265,6 +265,76 @@ func FamilyUpdate(thorough bool) []*Conv {
 			}
 		}
 	}
+	// a setting enabled at an outer level and switched off (wholly or per category) at an inner one
+	type override struct {
+		name         string
+		cli, conv, m []string
+		u            UpdateSpec
+	}
+	overrides := []override{
+		{"conv_yes_method_no", nil, []string{"update:ignoreZeroValueField"}, []string{"update:ignoreZeroValueField no"}, UpdateSpec{}},
+		{"cli_yes_conv_no", []string{"update:ignoreZeroValueField"}, []string{"update:ignoreZeroValueField no"}, nil, UpdateSpec{}},
+		{"cli_yes_method_no", []string{"update:ignoreZeroValueField yes"}, nil, []string{"update:ignoreZeroValueField no"}, UpdateSpec{}},
+		{"conv_yes_method_basic_no", nil, []string{"update:ignoreZeroValueField"}, []string{"update:ignoreZeroValueField:basic no"}, UpdateSpec{SkipStruct: true, SkipNillable: true}},
+		{"conv_yes_method_struct_no", nil, []string{"update:ignoreZeroValueField"}, []string{"update:ignoreZeroValueField:struct no"}, UpdateSpec{SkipBasic: true, SkipNillable: true}},
+		{"cli_yes_conv_nillable_no", []string{"update:ignoreZeroValueField"}, []string{"update:ignoreZeroValueField:nillable no"}, nil, UpdateSpec{SkipBasic: true, SkipStruct: true}},
+		{"conv_no_method_yes", nil, []string{"update:ignoreZeroValueField no"}, []string{"update:ignoreZeroValueField"}, UpdateSpec{SkipBasic: true, SkipStruct: true, SkipNillable: true}},
+		{"conv_basic_method_no", nil, []string{"update:ignoreZeroValueField:basic"}, []string{"update:ignoreZeroValueField no"}, UpdateSpec{}},
+	}
+	for _, ov := range overrides {
+		n++
+		u := ov.u
+		out = append(out, &Conv{
+			ID:      "update/override/" + ov.name,
+			Family:  "update",
+			Format:  []string{"struct", "function", "variable"}[n%3],
+			Params:  "source PFXIn, target *PFXOut",
+			Results: []string{"", "error"}[n%2],
+			Decls:   "type PFXIa struct {\n\tX int\n\tY string\n}\ntype PFXIb struct {\n\tX int\n\tY string\n}\ntype PFXIn struct {\n\tA int\n\tB string\n\tD PFXIa\n\tF []int\n\tG map[string]int\n\tKeep int\n}\ntype PFXOut struct {\n\tA int\n\tB string\n\tD PFXIb\n\tF []int\n\tG map[string]int\n\tKeep int\n\tOnly string\n}\n",
+			CLI:     ov.cli, ConvLines: ov.conv,
+			MethodLines: append([]string{"update target", "ignore Keep Only"}, ov.m...),
+			Spec: &Spec{Update: &u, Pairs: map[string]*PairSpec{"PFXIn→PFXOut": {Fields: map[string]*FieldSpec{"Keep": {Ignore: true}, "Only": {Ignore: true}}}}},
+		})
+	}
+	// enum-typed fields belong to the basic category
+	for cats := 0; cats < 8; cats++ {
+		if !thorough && cats != 0 && cats != 1 && cats != 6 && cats != 7 {
+			continue
+		}
+		n++
+		u := &UpdateSpec{SkipBasic: cats&1 != 0, SkipStruct: cats&2 != 0, SkipNillable: cats&4 != 0}
+		var lines []string
+		if cats == 7 {
+			lines = []string{"update:ignoreZeroValueField"}
+		} else {
+			if u.SkipBasic {
+				lines = append(lines, "update:ignoreZeroValueField:basic")
+			}
+			if u.SkipStruct {
+				lines = append(lines, "update:ignoreZeroValueField:struct")
+			}
+			if u.SkipNillable {
+				lines = append(lines, "update:ignoreZeroValueField:nillable")
+			}
+		}
+		src := enumDef{"int", []enumMember{{"Red", "0"}, {"Green", "1"}, {"Blue", "2"}}}
+		tgt := enumDef{"int", []enumMember{{"Red", "0"}, {"Green", "5"}, {"Blue", "6"}}}
+		es := &EnumSpec{Unknown: "Green", UnknownVal: "5", Map: []EnumArm{{"0", "0"}, {"1", "5"}, {"2", "6"}}}
+		cv := &Conv{
+			ID:      fmt.Sprintf("update/enumfield/c%d", cats),
+			Family:  "update",
+			Format:  []string{"struct", "function", "variable"}[n%3],
+			Params:  "source PFXIn, target *PFXOut",
+			Results: []string{"", "error"}[n%2],
+			Decls:   "type PFXIn struct {\n\tA int\n\tU pfxsrc.Color\n\tKeep int\n}\ntype PFXOut struct {\n\tA int\n\tU pfxtgt.Color\n\tKeep int\n\tOnly string\n}\n",
+			ConvLines:   append([]string{"enum:unknown Green"}, lines...),
+			MethodLines: []string{"update target", "ignore Keep Only"},
+			Spec: &Spec{Update: u, Enums: map[string]*EnumSpec{"Color→Color": es}, Pairs: map[string]*PairSpec{"PFXIn→PFXOut": {Fields: map[string]*FieldSpec{"Keep": {Ignore: true}, "Only": {Ignore: true}}}}},
+			Aux:     map[string]string{"pfxsrc": src.source("pfxsrc", "Color"), "pfxtgt": tgt.source("pfxtgt", "Color")},
+			Imports: []string{`pfxsrc "corpus/GRP/pfxsrc"`, `pfxtgt "corpus/GRP/pfxtgt"`},
+		}
+		out = append(out, cv)
+	}
 	// sources that are argument-less methods (getters) of the source struct
 	for cats := 0; cats < 8; cats += 1 {
 		if !thorough && cats != 0 && cats != 1 && cats != 7 {
